@@ -352,6 +352,17 @@ def run(ck):
     for k in range(0, len(reqs), B):
         results += run_requests(ck, reqs[k:k + B], "gen%d" % (k // B))
     decide(ck, results, stats)
+    # DATE ± INTERVAL (its own model, driver and theorems: checks/c14_date.py)
+    from checks import c14_date
+    bad.update(vlib.step_lean(ck, "RlModel.Thm.C14Date", c14_date.THEOREMS, extra_targets=["drv_c14date"]))
+    okd, logd = vlib.step_cargo(ck, ["c01"])
+    if okd and os.path.exists(vlib.lean_exe("drv_c14date")):
+        dstats, dviol = c14_date.run(ck)
+        for v in dviol:
+            ck.report(v["sig"], v["what"], replay=v["replay"], found_input=v["found"])
+        ck.coverage["date_interval"] = dstats
+    else:
+        ck.report("build:date-stream", "the SQL harness or drv_c14date does not build", replay={"log": logd[-1500:]}, found_input=False)
     # theorem failures: the correspondence + oracle above was the search for a failing input
     for name, st in bad.items():
         ck.report("thm:" + name, "theorem %s is not discharged: %s" % (name, json.dumps(st)[:300]),
